@@ -45,12 +45,28 @@ def datasets(ctx, lib, n, count):
             chain = [c for c in subs if c.strip()]
             cand.append((0 if chain and "nan" not in chain else 1, i))
     cand.sort()
+    # uniques whose cheapest recoverable variant needs a non-empty parameter map: their ranking depends on the transfer (C05)
+    import collections
+    byu = collections.defaultdict(list)
+    for i, (m, subs, a) in enumerate(zip(lib["matches"], lib["subs"], lib["aifeyn"])):
+        ch = [c for c in subs if c.strip()]
+        byu[m].append((a, "empty" if not ch else ("nan" if "nan" in ch else "chain"), i))
+    needs_chain = set()
+    for u, vs in byu.items():
+        e = [a for a, k, i in vs if k == "empty"]
+        c = [(a, i) for a, k, i in vs if k == "chain"]
+        if c and (not e or min(c)[0] < min(e) - 1e-9):
+            needs_chain.add(min(c)[1])
+    pri = [(p, i) for p, i in cand if i in needs_chain]
     out = []
     x = np.linspace(0.5, 3.0, 30)
     tries = 0
     while len(out) < count and tries < 200 and cand:
         tries += 1
-        _, i = cand[rng.randrange(min(len(cand), 40))] if rng.random() < 0.7 else cand[rng.randrange(len(cand))]
+        if pri and (len(out) == 0 or rng.random() < 0.5):
+            _, i = pri[rng.randrange(len(pri))]
+        else:
+            _, i = cand[rng.randrange(min(len(cand), 40))] if rng.random() < 0.7 else cand[rng.randrange(len(cand))]
         s = lib["all"][i]
         k = fitlib.nparams_of(s)
         th = [rng.choice([-1, 1]) * rng.uniform(0.5, 2.5) for _ in range(k)]
@@ -64,7 +80,7 @@ def datasets(ctx, lib, n, count):
         noise = rng.choice([0.05, 0.2, 0.5])
         nrng = np.random.default_rng(rng.randrange(10 ** 9))
         y = y0 + nrng.normal(0, noise, size=len(x))
-        out.append({"truth_index": i, "truth": s, "theta": th, "noise": noise, "x": x.tolist(), "y": y.tolist(), "sig": [noise] * len(x)})
+        out.append({"truth_index": i, "truth": s, "needs_chain": i in needs_chain, "theta": th, "noise": noise, "x": x.tolist(), "y": y.tolist(), "sig": [noise] * len(x)})
     return out
 
 
@@ -73,7 +89,7 @@ def correspondence(ctx):
     import liboracle as lo
     rep = ctx.report
     ctx.runs = []
-    plan = [("core_maths", 3, 2), ("core_maths", 4, 1)] if ctx.quick else [("core_maths", 3, 4), ("core_maths", 4, 4), ("ext_maths", 3, 2), ("ext_maths", 4, 2), ("keep_duplicates", 3, 2), ("core_maths", 5, 1)]
+    plan = [("core_maths", 3, 3), ("core_maths", 4, 3), ("ext_maths", 3, 2)] if ctx.quick else [("core_maths", 3, 4), ("core_maths", 4, 4), ("ext_maths", 3, 2), ("ext_maths", 4, 2), ("keep_duplicates", 3, 2), ("core_maths", 5, 1)]
     work, repo = fitlib.work_repo(ctx.scratch, "c04")
     for runname, n, nds in plan:
         ok, err = fitlib.generate(repo, runname, [n])
@@ -133,6 +149,17 @@ def search(ctx):
             if not (abs(nll - row["nll"]) <= 2e-5 * (1 + abs(nll)) + 1e-6 * abs(row["nll"])):
                 rep.fail("failing-input", "final row %d (%s): likelihood at the reported parameters is %r but the row reports %r" % (row["rank"], row["fcn"], nll, row["nll"]),
                          "C04:row-nll-not-reproducible", input=dict(base_in, row=row), observed=row["nll"], expected=nll)
+        # (b0) top row vs the independently computed description length of the planted tree itself (any tree with 1-2 parameters)
+        ti = ds["truth_index"]
+        kt = fitlib.nparams_of(lib["all"][ti])
+        nm = fitlib.mdl_numeric(lib["all"][ti], lib["trees"][ti], kt, x, y, sig, ds["theta"])
+        if nm is not None:
+            stats["planted_numeric"] = stats.get("planted_numeric", 0) + 1
+            if final[0]["DL"] > nm["DL"] + 0.02 + 1e-3 * abs(nm["DL"]):
+                rep.fail("failing-input", "top-ranked DL %.6f exceeds the independently computed DL %.6f of the planted tree %r (%s)" % (
+                    final[0]["DL"], nm["DL"], lib["trees"][ti], lib["all"][ti]), "C04:beaten-by-enumerated-tree",
+                    input=dict(base_in, tree_index=ti, labels=lib["trees"][ti], string=lib["all"][ti]), observed=final[0], expected=nm)
+                continue
         # (b) top row vs independent description length of every affine-in-parameter tree
         top = final[0]["DL"]
         for i, (s, labels) in enumerate(zip(lib["all"], lib["trees"])):
